@@ -1566,6 +1566,95 @@ func windowChoose(pauses []pause, r *vh.Rng) func(ls *lockstep, en []int) int {
 var clearYields = []int{8, 9, 11}
 var getYields = []int{1, 2, 4, 5, 7}
 
+// crossChoose: first the pauses, in order (as windowChoose); then the threads run in the order `order`: each to
+// completion one after the other, or (zip) one atomic operation each in turn; threads not named finish last.
+func crossChoose(pauses []pause, order []int, zip bool) func(ls *lockstep, en []int) int {
+	inner := windowChoose(pauses, nil)
+	reached := false
+	turn := 0
+	return func(ls *lockstep, en []int) int {
+		enabled := map[int]bool{}
+		for _, t := range en {
+			enabled[t] = true
+		}
+		if !reached {
+			t := inner(ls, en)
+			allReached := true
+			for _, p := range pauses {
+				if enabled[p.t] && ls.at[p.t] != p.y {
+					allReached = false
+				}
+			}
+			if !allReached {
+				return t
+			}
+			reached = true
+		}
+		if zip {
+			for n := 0; n < len(order); n++ {
+				t := order[(turn+n)%len(order)]
+				if enabled[t] {
+					turn = (turn + n + 1) % len(order)
+					return t
+				}
+			}
+		} else {
+			for _, t := range order {
+				if enabled[t] {
+					return t
+				}
+			}
+		}
+		return en[0]
+	}
+}
+
+// fixedCross (every run, both capacities): a Clear(x) and a GetStream working on the SAME word, BOTH paused, in
+// front of every pair of their atomic operations (Clear: load / CAS / decrement; GetStream: offset load / offset
+// CAS / word load / word CAS / increment), then resumed in both orders and alternating one atomic operation each
+// (so that each CAS is also seen failing and retrying: yields 10 and 6). Free id below / above x in the word, no
+// other free id, free id in the other word; with a third goroutine releasing x a second time (no client protocol)
+// or acquiring as well.
+func fixedCross(out *vh.Out) {
+	type cfg struct {
+		proto int
+		pre   []string
+		x     int
+	}
+	cfgs := []cfg{
+		{2, []string{"G127", "c70"}, 100}, {1, []string{"G127", "c100"}, 70}, {2, []string{"G127", "c5"}, 40},
+		{1, []string{"G127"}, 64}, {2, []string{"G127"}, 127}, {1, []string{"G127"}, 1}, {2, []string{"G127", "c10"}, 100},
+		{2, []string{"G127", "c126", "c125"}, 127},
+		{3, []string{"G32767", "c16390"}, 16400}, {5, []string{"G32767"}, 32767},
+	}
+	orders := []struct {
+		o   []int
+		zip bool
+	}{{[]int{0, 1}, false}, {[]int{1, 0}, false}, {[]int{0, 1}, true}, {[]int{1, 0}, true}}
+	for ci, c := range cfgs {
+		cx := fmt.Sprintf("c%d", c.x)
+		for _, yc := range clearYields {
+			for _, yg := range getYields {
+				for oi, o := range orders {
+					if c.proto > 2 && oi >= 2 && (yc+yg)%2 == 0 {
+						continue
+					}
+					emitConcX(out, c.proto, 2, c.pre, [][]string{{cx, "a"}, {"g", "a"}}, nil,
+						crossChoose([]pause{{0, yc, 1}, {1, yg, 1}}, o.o, o.zip), "conc/cross", true)
+				}
+				if ci < 3 {
+					// a third goroutine inside the double window: a second release of x (racing double release, no
+					// client protocol), or a second acquisition
+					emitConcX(out, c.proto, 3, c.pre, [][]string{{cx}, {"g"}, {cx, "g"}}, nil,
+						crossChoose([]pause{{0, yc, 1}, {1, yg, 1}}, []int{2, 1, 0}, false), "conc/cross3", true)
+					emitConcX(out, c.proto, 3, c.pre, [][]string{{cx}, {"g"}, {"g", "a"}}, nil,
+						crossChoose([]pause{{0, yc, 1}, {1, yg, 1}}, []int{2, 0, 1}, false), "conc/cross3", true)
+				}
+			}
+		}
+	}
+}
+
 // fixedWindows (every run, both capacities): all ids handed out, one Clear(x) paused in front of each of its
 // atomic operations (load / CAS / decrement: in the last window the bit is clear and the counter still counts
 // the id), complete calls of another goroutine inside the window; the dual: one id free, a GetStream paused in
@@ -1613,6 +1702,33 @@ func fixedWindows(out *vh.Out) {
 			}
 		}
 	}
+}
+
+// fixedSweep (every run): ONE full 32768-id generator, a single hole in EVERY one of its 512 words one after the
+// other (bit position varying with the word: 64w + (7w+3)%64), ascending then a descending pass with another bit
+// position: release x, GetStream must hand out exactly x (spec: must succeed), the next one must fail; then two
+// holes in two different words at a time. Judged by the specification (smon) and compared id by id (seq).
+func fixedSweep(out *vh.Out) {
+	toks := []string{"G32767"}
+	for w := 0; w < 512; w++ {
+		x := 64*w + (7*w+3)%64
+		toks = append(toks, fmt.Sprintf("c%d", x), "g", "g")
+	}
+	for w := 511; w >= 0; w -= 3 {
+		x := 64*w + (11*w+63)%64
+		if x == 0 {
+			x = 1
+		}
+		toks = append(toks, fmt.Sprintf("c%d", x), "g", "g")
+	}
+	for w := 0; w+259 < 512; w += 37 {
+		toks = append(toks, fmt.Sprintf("c%d", 64*w+63), fmt.Sprintf("c%d", 64*(w+259)+1), "a", "g", "g", "g")
+	}
+	toks = append(toks, "a")
+	op := "smon 5 " + strings.Join(toks, " ")
+	emitCase(out, op, exec(op), "smon/sweep-every-word/32768", true)
+	op = "seq 4 " + strings.Join(toks, " ") + " s"
+	emitCase(out, op, exec(op), "seq/sweep-every-word/32768", true)
 }
 
 // genWindow: random members of the same family: (almost) full generator of either capacity, 1..2 goroutines
@@ -2152,7 +2268,9 @@ func main() {
 		emitCase(out, "mon "+op, verdict, "mon/fixed", true)
 	}
 	fixedWindows(out)
+	fixedCross(out)
 	fixedOffsets(out)
+	fixedSweep(out)
 	for i := 0; i < 1500*mult; i++ {
 		genSeq(r, out)
 	}
